@@ -29,7 +29,7 @@ checks = {
  "C13": ("exploration", "bounded-exhaustive enumeration of POP3 command sequences with external mutations as events (full tree + explicit-state search), real session code in synctest bubbles vs POP3 snapshot model; every prefix doubles as the dropped-connection case",
          "All sequences over a 59-element alphabet from the greeting, and a second search from a logged-in session (non-initial state) over the TRANSACTION-state alphabet; STAT/LIST/UIDL/RETR/TOP/DELE/RSET pinned against the login-time snapshot; commit rule checked after every sequence.", "Trusted: AUTHORIZATION-state replies not pinned; synctest; go1.26.8.", "3.C13"),
  "C14": ("exploration", "bounded-exhaustive enumeration of API call sequences mixed with deliveries × mailbox names × backend × base path through the real router and the bundled Go client",
-         "Every sequence over a 36-op alphabet (incl. requests whose client resets the connection after the first body byte); status, body and the store's own state after every call.", "Trusted: percent-encoding client; panics caught at ServeHTTP.", "3.C14"),
+         "Every sequence over a 37-op alphabet (incl. requests whose client resets the connection after the first body byte); status, body and the store's own state after every call.", "Trusted: percent-encoding client; panics caught at ServeHTTP.", "3.C14"),
  "C15": ("model_checking", "bounded-exhaustive hub operation sequences in synctest bubbles vs hub model + stateless DFS over all schedules of hub ∥ dispatcher ∥ healthy listeners ∥ failing/slow/closing real socket listeners",
          "Sequential semantics by exhaustive sequences with the real listeners; failure timing by exhaustive schedules within the preemption bound.", "Trusted: WSWriter replaced by a harness consumer through the verif hook; scheduler assumptions as C09.", "3.C15"),
  "C16": ("model_checking", "bounded-exhaustive histories × limits × backends with events counted at exact quiescence (synctest) + stateless DFS over all schedules of the asynchronous event dispatch with a scheduling point inside the listener body",
